@@ -353,6 +353,32 @@ def run(F, rep, tier):
         else:
             rep.ok(r5, key, "%d early returns, all on a strict difference; Equal after the loop" % len(inloop))
 
+    # ---------------- R03.6: sibling agreement of the aggregating COLLECT methods
+    r6 = rep.rule("R03.6", "the aggregating COLLECT methods (+, <, >) refuse / accept tables under one and the same condition (sibling agreement of their early null returns)")
+    aggs = {pol: (dispatch.get(pol) or [None])[0] for pol in ("Collect:Sum", "Collect:Min", "Collect:Max")}
+    guards = {}
+    for pol, meth in aggs.items():
+        if meth not in F.hir:
+            rep.missing_anchor(r6, "evaluation method of %s" % pol)
+            continue
+        fl = hirflow.Flow(F.hir[meth])
+        gs = set()
+        for d, cond, line in fl.returns:
+            if d == ("null",):
+                # the conditions under which the method gives up, with the method's own name removed
+                gs.add(repr(tuple((c[0], c[1], c[2]) for c in cond if not (isinstance(c[0], tuple) and c[0] and c[0][0] == "loop-enter"))))
+        guards[pol] = gs
+    if len(guards) == 3:
+        from collections import Counter
+        cnt = Counter(frozenset(g) for g in guards.values())
+        major, _ = cnt.most_common(1)[0]
+        for pol, gs in guards.items():
+            if frozenset(gs) == major and (cnt[major] > 1):
+                rep.ok(r6, "aggregator-guard:%s" % pol, "same refusal condition as its siblings (%d null path(s))" % len(gs))
+            else:
+                rep.violation(r6, "aggregator-guard:%s" % pol, "%s refuses tables under a different condition than the other aggregators: %s vs %s" % (aggs[pol].split("::")[-1], sorted(gs)[:2], sorted(major)[:2]),
+                              "%s:%s" % (FILE, F.hir[aggs[pol]]["line"]))
+
     # ---------------- R03.3 (MIR): the `matches` flag
     name = DT + "evaluate_parsed_decision_table"
     b = F.bodies.get(name)
